@@ -255,7 +255,7 @@ def check_fresh(ctx, P, R, tag=""):
                     sp -= 8
                 else:
                     sp -= 8
-                    v = strip(val)
+                    v = f.resolve(val) or strip(val)      # (through the parameter locals of an inlined frame-building helper)
                     mem[sp] = TAG.get(v.name) if v.k == "DeclRefExpr" and v.dk == "param" else (v.cv if v.cv is not None else "?")
         except (Unevaluable, TypeError) as e:
             raise AnalysisBroken("fiber_context_init: cannot simulate the layout (%s)" % e)
